@@ -43,6 +43,8 @@ def variance_of(expr, lets):
         if e["n"] in AMBIENT:
             return "amb"
         if e["n"] in lets:
+            if isinstance(lets[e["n"]], tuple):
+                return "?proj:" + e["n"]
             return variance_of(lets[e["n"]], lets)
         return "?" + e["n"]
     if k == "call" and callee_matches(e, VAR + "::xform"):
@@ -74,7 +76,102 @@ def lets_of(node):
     for st in walk(node):
         if st.get("k") == "let" and st.get("init") is not None and st["pat"].get("k") == "bind":
             out[st["pat"]["n"]] = st["init"]
+        elif st.get("k") == "let" and st.get("init") is not None and st["pat"].get("k") == "leaf" and st["pat"].get("sub"):
+            # `let (a, b) = helper(..)`: component i of the tuple the initializer evaluates to
+            for idx, _nm, sp in st["pat"]["sub"]:
+                if isinstance(sp, dict) and sp.get("k") == "bind" and sp.get("n"):
+                    out[sp["n"]] = ("proj", st["init"], idx)
     return out
+
+
+def _flip(v):
+    return {"Co": "Contra", "Contra": "Co", "Inv": "Inv"}[v]
+
+
+def sem(expr, lets, env, depth=0):
+    """Value of a variance-valued expression for one ambient variance and one mutability (env = {"amb", "mut", params..}): "Co" /
+    "Contra" / "Inv", a list for a tuple, None when unknown.  xform / invert are taken by their meaning (rule ALGEBRA checks that the
+    two functions have it); helpers of the workspace are entered."""
+    if depth > 8:
+        return None
+    if isinstance(expr, tuple) and expr and expr[0] == "proj":
+        t = sem(expr[1], lets, env, depth + 1)
+        return t[expr[2]] if isinstance(t, list) and expr[2] < len(t) else None
+    e = peel(expr)
+    if not isinstance(e, dict):
+        return None
+    k = e.get("k")
+    if k == "adt" and e.get("adt") == VAR:
+        return NAMES[e["v"]]
+    if k == "var":
+        n_ = e["n"]
+        if n_ in env:
+            return env[n_]
+        if n_ in lets:
+            return sem(lets[n_], lets, env, depth + 1)
+        if n_ in AMBIENT:
+            return env.get("amb")
+        return None
+    if k == "tuple":
+        return [sem(x, lets, env, depth + 1) for x in e.get("es", [])]
+    if k == "block":
+        return sem(result_expr(e), lets, env, depth + 1)
+    if k == "match" and "Mutability" in e.get("sty", ""):
+        a = select_arms(e, V(env.get("mut")))
+        return sem(e["arms"][a[0][0]]["body"], lets, env, depth + 1) if a else None
+    if k == "call" and callee_matches(e, VAR + "::xform"):
+        a, b = sem(e["args"][0], lets, env, depth + 1), sem(e["args"][1], lets, env, depth + 1)
+        if a is None or b is None or isinstance(a, list) or isinstance(b, list):
+            return None
+        return compose(a, b)
+    if k == "call" and callee_matches(e, VAR + "::invert"):
+        a = sem(e["args"][0], lets, env, depth + 1)
+        return _flip(a) if isinstance(a, str) else None
+    if k == "call" and FACTS is not None:
+        for name in (e.get("res"), e.get("fn")):
+            hb = FACTS.body(name) if name else None
+            if hb is None or hb.thir is None or "{" in name:
+                continue
+            from kit import user_block
+            env2 = {"mut": env.get("mut")}
+            params = [p_ for p_ in (hb.d.get("thir_params") or []) if isinstance(p_, dict)]
+            for p_, a_ in zip(params, e.get("args", [])):
+                if p_.get("k") != "bind" or not p_.get("n"):
+                    continue
+                if "Mutability" in str(p_.get("ty", "")):
+                    continue        # decided by env["mut"] (the arm has already required both mutabilities to be equal)
+                v_ = sem(a_, lets, env, depth + 1)
+                if v_ is not None:
+                    env2[p_["n"]] = v_
+            r = sem(result_expr(user_block(hb.thir)), lets_of(hb.thir), env2, depth + 1)
+            if r is not None:
+                return r
+    return None
+
+
+CANON = {
+    "amb": lambda a, m: a,
+    "amb*Contra": lambda a, m: compose(a, "Contra"),
+    "amb*mut(Co|Inv)": lambda a, m: a if m == "Not" else "Inv",
+    "amb*Inv": lambda a, m: "Inv",
+    "inv(amb)": lambda a, m: _flip(a),
+}
+
+
+def by_meaning(expr, lets):
+    """canonical name of a variance expression the syntactic rendering could not name, from its value table over all ambient
+    variances and mutabilities; None when a cell is unknown or no canonical form has that table"""
+    table = {}
+    for a in ("Co", "Contra", "Inv"):
+        for m in ("Not", "Mut"):
+            v = sem(expr, lets, {"amb": a, "mut": m})
+            if not isinstance(v, str):
+                return None
+            table[(a, m)] = v
+    for name, f in CANON.items():
+        if all(f(a, m) == v for (a, m), v in table.items()):
+            return name
+    return None
 
 
 def zip_calls(body, sv):
@@ -85,7 +182,10 @@ def zip_calls(body, sv):
         fn = c.get("fn") or ""
         if fn.endswith("Zip::zip_with"):
             comp = sorted({sv.get(v, (None, v))[1] for v in (expr_vars(c["args"][2]) | expr_vars(c["args"][3])) if v in sv}, key=str)
-            out.append(("zip%s" % comp, variance_of(c["args"][1], lets)))
+            vv = variance_of(c["args"][1], lets)
+            if "?" in vv:
+                vv = by_meaning(c["args"][1], lets) or vv
+            out.append(("zip%s" % comp, vv))
         elif fn.endswith("zip_substs"):
             vs = c["args"][2]
             p = peel(vs)
